@@ -54,18 +54,28 @@ def check_cover(run, tab, ex, jnp, rng, tier):
     classes = {1: ex.etdrk.ETDRK1, 2: ex.etdrk.ETDRK2, 3: ex.etdrk.ETDRK3, 4: ex.etdrk.ETDRK4}
     for p, cls in classes.items():
         # (dt, number of contour nodes): the coefficient functions do not depend on how many nodes the contour mean uses (even or odd)
-        for dt, ncp in ((1.0, None), (0.01, None), (37.0, None), (1.0, 17), (0.3, 32), (1.0, 33)):
+        # the contour radius and the dtype in which a real symbol is handed over do not enter either
+        for dt, ncp in ((1.0, None), (0.01, None), (37.0, None), (1.0, 17), (0.3, 32), (1.0, 33), (1.0, "radius2"), (0.5, "realdtype")):
             for zero_u in (True, False):
                 L = zs / dt
+                if ncp == "realdtype":
+                    L = np.where(np.abs(zs.imag) > 0, -np.abs(zs), zs.real) / dt          # real symbols only, passed as a float64 array
                 outs = [jnp.asarray((rng.standard_normal((1, M)) + 1j * rng.standard_normal((1, M)))) for _ in range(p + 1)]
                 f = FixedOutputs(outs)
-                integ = cls(dt, jnp.asarray(L)[None, :], f) if ncp is None else cls(dt, jnp.asarray(L)[None, :], f, num_circle_points=ncp)
+                if ncp is None:
+                    integ = cls(dt, jnp.asarray(L)[None, :], f)
+                elif ncp == "radius2":
+                    integ = cls(dt, jnp.asarray(L)[None, :], f, num_circle_points=32, circle_radius=2.0)
+                elif ncp == "realdtype":
+                    integ = cls(dt, jnp.asarray(np.real(L), dtype=jnp.float64)[None, :], f)
+                else:
+                    integ = cls(dt, jnp.asarray(L)[None, :], f, num_circle_points=ncp)
                 u = np.zeros((1, M), dtype=complex) if zero_u else (rng.standard_normal((1, M)) + 1j * rng.standard_normal((1, M)))
                 res = np.asarray(integ.step_fourier(jnp.asarray(u)))
                 T = etdrk.Tableau(tab, p, (L * dt)[None, :])
                 npo = [np.asarray(o) for o in outs]
                 key0 = {"kind": "cover", "order": p, "mode": "default contour" if ncp is None else f"{ncp} contour nodes",
-                        "contour": "default" if ncp is None else ("odd" if ncp % 2 else "even")}
+                        "contour": "default" if ncp is None else (ncp if isinstance(ncp, str) else ("odd" if ncp % 2 else "even"))}
                 if len(f.inputs) != p:
                     run.violation(dict(key0, what="number of nonlinear evaluations"), {"got": len(f.inputs)})
                     continue
